@@ -22,6 +22,7 @@ import (
 	"github.com/vimeo/dials/common"
 	cuedec "github.com/vimeo/dials/decoders/cue"
 	jsondec "github.com/vimeo/dials/decoders/json"
+	"github.com/vimeo/dials/decoders/json/jsontypes"
 	tomldec "github.com/vimeo/dials/decoders/toml"
 	yamldec "github.com/vimeo/dials/decoders/yaml"
 	"github.com/vimeo/dials/ptrify"
@@ -119,7 +120,9 @@ func fillGeneric(v reflect.Value, path string, c chooser) int {
 			continue
 		case isLeafType(sf.Type):
 			if c.chosen(p) {
-				f.Set(shape.MakeValue(sf.Type, c.value(p), plain))
+				val := shape.MakeValue(sf.Type, c.value(p), plain)
+				f.Set(val)
+				sprinkleNils(f, &nilRng{s: c.value(p) ^ 0x9e3779b97f4a7c15}, true)
 				n++
 			}
 		case sf.Type.Kind() == reflect.Struct:
@@ -133,6 +136,76 @@ func fillGeneric(v reflect.Value, path string, c chooser) int {
 		}
 	}
 	return n
+}
+
+// nilRng is a tiny deterministic generator for sprinkleNils.
+type nilRng struct{ s uint64 }
+
+func (r *nilRng) next() uint64 {
+	r.s += 0x9e3779b97f4a7c15
+	z := r.s
+	z = (z ^ (z >> 30)) * 0xbf58476d1ce4e5b9
+	z = (z ^ (z >> 27)) * 0x94d049bb133111eb
+	return z ^ (z >> 31)
+}
+
+// sprinkleNils replaces about a third of the pointer-typed ELEMENTS of slices,
+// arrays and maps inside v (recursively, also below struct elements) by nil:
+// a null inside a list or map is valid input in every format that can spell
+// it.  The leaf itself (top=true) is left alone: whether a leaf is set is the
+// chooser's decision.  Pure function of (value, seed).
+func sprinkleNils(v reflect.Value, r *nilRng, top bool) {
+	switch v.Kind() {
+	case reflect.Pointer:
+		if !v.IsNil() {
+			sprinkleNils(v.Elem(), r, false)
+		}
+	case reflect.Slice, reflect.Array:
+		if v.Kind() == reflect.Slice && v.IsNil() {
+			return
+		}
+		for i := 0; i < v.Len(); i++ {
+			e := v.Index(i)
+			if e.Kind() == reflect.Pointer && e.CanSet() && r.next()%3 == 0 {
+				e.Set(reflect.Zero(e.Type()))
+				continue
+			}
+			sprinkleNils(e, r, false)
+		}
+	case reflect.Map:
+		if v.IsNil() {
+			return
+		}
+		keys := v.MapKeys()
+		sort.Slice(keys, func(i, j int) bool { return fmt.Sprint(keys[i]) < fmt.Sprint(keys[j]) })
+		for _, k := range keys {
+			e := v.MapIndex(k)
+			if e.Kind() == reflect.Pointer {
+				if r.next()%3 == 0 {
+					v.SetMapIndex(k, reflect.Zero(e.Type()))
+				} else if !e.IsNil() {
+					sprinkleNils(e.Elem(), r, false)
+				}
+				continue
+			}
+			// map elements are not addressable: rebuild struct / container elements
+			if e.Kind() == reflect.Struct || e.Kind() == reflect.Slice || e.Kind() == reflect.Array || e.Kind() == reflect.Map {
+				c := reflect.New(e.Type()).Elem()
+				c.Set(e)
+				sprinkleNils(c, r, false)
+				v.SetMapIndex(k, c)
+			}
+		}
+	case reflect.Struct:
+		if shape.IsTextStruct(v.Type()) {
+			return
+		}
+		for i := 0; i < v.NumField(); i++ {
+			if v.Type().Field(i).IsExported() && v.Field(i).CanSet() {
+				sprinkleNils(v.Field(i), r, false)
+			}
+		}
+	}
 }
 
 // ---- rendering a value as the text a string-typed source expects ---------------
@@ -527,6 +600,10 @@ func chainManglers(chain string) []transform.Mangler {
 		return []transform.Mangler{&transform.StringCastingMangler{}}
 	case "tagcopy":
 		return []transform.Mangler{&tagformat.TagCopyingMangler{SrcTag: common.DialsTagName, NewTag: "json"}}
+	case "durationsub":
+		return []transform.Mangler{durationSubMangler}
+	case "json-chain": // exactly what the JSON and Cue decoders run
+		return []transform.Mangler{durationSubMangler, &tagformat.TagCopyingMangler{SrcTag: common.DialsTagName, NewTag: "json"}}
 	}
 	return nil
 }
@@ -576,7 +653,17 @@ func runTypesDecoder(c TypesCase) vrt.Verdict {
 
 // ---- mangler chains on their own ----------------------------------------------------
 
-var manglerChains = []string{"flatten", "alias+flatten", "anon", "setslice", "textunmarshal", "ez", "ez-snake", "anon+ez-snake", "tagcopy", "stringcast", "stringcast"}
+// durationSubMangler is the time.Duration -> jsontypes.ParsingDuration
+// substitution the JSON and Cue decoders apply.
+var durationSubMangler = func() transform.Mangler {
+	m, err := transform.NewSingleTypeSubstitutionMangler[time.Duration, jsontypes.ParsingDuration]()
+	if err != nil {
+		panic(err)
+	}
+	return m
+}()
+
+var manglerChains = []string{"durationsub", "durationsub", "json-chain", "flatten", "alias+flatten", "anon", "setslice", "textunmarshal", "ez", "ez-snake", "anon+ez-snake", "tagcopy", "stringcast", "stringcast"}
 
 // fillStringCast fills the value StringCastingMangler produced for pt: every
 // field is a *string; the top-level leaves get the documented spelling of a
@@ -670,6 +757,7 @@ const typesRuleCommon = "config struct types from the shape grammar restricted t
 var typesAssumptions = []string{
 	"flattened leaf names are distinct (the generator renames; a replayed case that violates this is discarded)",
 	"the config type holds no interface-typed fields",
+	"about a third of the pointer-typed elements inside fed slices, arrays and maps are nil (a null inside a list or map is valid input wherever the format can spell it; an encoder that cannot, e.g. TOML, makes the case trivial)",
 	"input is valid: every fed value is built from a seed with finite floats and plain strings and spelled in the source's documented syntax (or with the format's own encoder)",
 	"while a root-cause key is listed as known in known_findings.json, half of the cases leave out the constructs that trigger it (label behind-known unnecessary: the shape itself shows it)",
 }
@@ -721,7 +809,7 @@ func TestC16TypesDecoders(t *testing.T) {
 func TestC16TypesManglers(t *testing.T) {
 	vrt.Check(t, vrt.Prop[TypesCase]{
 		ID: "C16", Name: "types-manglers",
-		Rule: typesRuleCommon + "(plus arrays of named elements and slices / maps of structs). Chain drawn from the shipped manglers and chains (DefaultFlatten, alias + flatten, AnonymousFlatten, SetSlice, TextUnmarshaler, the two ez chains, AnonymousFlatten + ez, TagCopying, StringCasting on its own); " +
+		Rule: typesRuleCommon + "(plus arrays of named elements and slices / maps of structs). Chain drawn from the shipped manglers and chains (DefaultFlatten, alias + flatten, AnonymousFlatten, SetSlice, TextUnmarshaler, the two ez chains, AnonymousFlatten + ez, TagCopying, StringCasting on its own, the time.Duration -> ParsingDuration substitution alone and with TagCopying as the JSON / Cue decoders run it); " +
 			"the pointerified type is translated, the mangled value filled leaf by leaf with seeded values of the mangled field types (StringCasting: with the documented spelling of a seeded value of the ORIGINAL leaf type), and translated back; " +
 			"oracle: Translate and ReverseTranslate return, without panic, either an error or a value of the pointerified type; non-trivial = named non-scalar leaf present and at least one mangled leaf filled; distinct = distinct case JSON",
 		Assumptions: typesAssumptions,
